@@ -234,6 +234,29 @@ Definition rx_ok (pre : sys) (m : msg) (kept : bool) (post : sys) : bool :=
     match owner_of (sessions post) m with Some _ => true | None => false end
   else true.
 
+(** a peer's CloseSession (not a duplicate) removes the session it arrived on,
+    whatever exchange it names *)
+Definition peer_close_ok (pre : sys) (m : msg) (dup : bool) (post : sys) : bool :=
+  if is_close (m_op m) && negb dup then
+    match find_key (sessions pre) (m_key m) with
+    | Some se => match find_sid (sessions post) (s_id se) with None => true | Some _ => false end
+    | None => true
+    end
+  else true.
+
+(** ephemeral RX group sessions: always at least one exchange (they come with one
+    and go with their last one), and never any reliability state (no MRP on group
+    data messages) *)
+Definition group_sessions_ok (ss : list session) : bool :=
+  forallb (fun se =>
+    negb (s_group se) ||
+    (existsb (fun o => negb (is_none o)) (s_exchs se) &&
+     forallb (fun o => match o with
+                       | Some e => negb (retrans_pending e) &&
+                                   match rm_ack (e_mrp e) with None => true | Some _ => false end
+                       | None => true
+                       end) (s_exchs se))) ss.
+
 (** * End-to-end observations *)
 
 (** a handler's log entry: what the payload says it was sent as (session key,
